@@ -25,6 +25,9 @@ type Cluster struct {
 	Batch func(pending int) int
 	// trace of the commit index observed by each SyncRead (for the oracle)
 	LastReadIndex uint64
+	// FailSyncRead, when non-nil, is returned by the next SyncRead (a transient raft error such as dragonboat.ErrSystemBusy:
+	// the read-index request could not be served); it is consumed by that call.
+	FailSyncRead error
 }
 
 func New(n int, typ fsm.SnapshotRecoveryType) (*Cluster, error) {
@@ -101,6 +104,10 @@ func (h Handle) SyncPropose(_ context.Context, _ *client.Session, cmd []byte) (s
 }
 
 func (h Handle) SyncRead(_ context.Context, _ uint64, req interface{}) (interface{}, error) {
+	if err := h.C.FailSyncRead; err != nil {
+		h.C.FailSyncRead = nil
+		return nil, err
+	}
 	idx := h.C.Commit() // ReadIndex: the commit index at the time of the call
 	h.C.LastReadIndex = idx
 	if _, err := h.C.CatchUp(h.Replica, idx); err != nil {
